@@ -12,6 +12,7 @@ import asyncio
 import json
 import os
 import re
+import shutil
 
 import asyncssh
 
@@ -406,6 +407,7 @@ def main(tier, seed):
         print('baseline violates: %r' % (base,))
     js = jobs(tier)
     acc = core.pmap(worker, core.rotate(js, seed), chunksize=2)
+    shutil.rmtree(SCRATCH, ignore_errors=True)
     rule = ('client programs {exec via callback session, stream session with blocked drain/read, run, '
             'sftp with outstanding requests, sftp with a request abandoned by its caller before later ones, remote port forward listener, three concurrent remote forward requests '
             'against a slow server application} x server behaviours {echo, '
